@@ -559,3 +559,29 @@ def run(index, rep, tier):
                 rep.check(r_ is None, "R09.15", pr.qualname, "a one-row PHYLIP file fails the line-count guard `%s`" % norm(t.ast), fn_where(pr, t.stmt), "guard `%s` admits the %d items get_lines makes of header + one row" % (norm(t.ast), items),
                           "the PHYLIP writer emits header + one newline-terminated row for a 1xN matrix; get_lines (`%s`) turns that text into %d items, and PhylipReader._read refuses under `%s`: every single-sequence matrix written to PHYLIP fails to read back" % (how, items, norm(t.ast)))
         rep.floor("R09.15", "line-count guards in PhylipReader._read", 1, nguard)
+
+    # ---- R09.16 a multistate cell is written the way it is read
+    with rep.section("R09.16"):
+        rep.rule("R09.16", "a symbol-less multistate cell is written the way it is read: whatever string StateIdentity.member_states_str puts between the member symbols ({0,1} / (1,2)) is skipped by the NEXUS reader's multistate loop, which otherwise takes every token between the brackets for a state symbol")
+        ms = index.function("dendropy.datamodel.charstatemodel.StateIdentity._get_member_states_str")
+        joins = [c for c in calls_in(ms.node) if isinstance(c.func, ast.Attribute) and c.func.attr == "join" and isinstance(c.func.value, ast.Constant) and isinstance(c.func.value.value, str)]
+        if not joins:
+            raise AnalysisError("R09.16: member_states_str no longer joins the member symbols with a literal")
+        seps = sorted({c.func.value.value for c in joins})
+        rd = index.function(XR + "._read_character_states")
+        inner = [w for w in ast.walk(rd.node) if isinstance(w, ast.While) and any(isinstance(c, ast.Call) and call_name(c) == "append" and "multistate" in norm(c.func.value) for c in ast.walk(w)) and not any(isinstance(x, ast.While) and x is not w for x in ast.walk(w))]
+        if len(inner) != 1:
+            raise AnalysisError("R09.16: multistate token loop of _read_character_states not recognised")
+        skipped = set()
+        for t in ast.walk(inner[0]):
+            if isinstance(t, ast.Compare) and len(t.ops) == 1 and "token" in norm(t.left):
+                if isinstance(t.ops[0], (ast.Eq, ast.NotEq)) and isinstance(t.comparators[0], ast.Constant):
+                    skipped.add(t.comparators[0].value)
+                if isinstance(t.ops[0], (ast.In, ast.NotIn)) and isinstance(t.comparators[0], (ast.Tuple, ast.List, ast.Set, ast.Constant)):
+                    c0 = t.comparators[0]
+                    skipped |= set(c0.value) if isinstance(c0, ast.Constant) and isinstance(c0.value, str) else {const_value(e) for e in getattr(c0, "elts", [])}
+        for sep in seps:
+            ok = sep == "" or sep.strip() == "" or sep in skipped
+            rep.check(ok, "R09.16", rd.qualname, "separator %r between member symbols is read as a state symbol" % sep, fn_where(rd, inner[0]), "separator %r of member_states_str is skipped by the reader" % sep,
+                      "StateIdentity.member_states_str renders a symbol-less ambiguous / polymorphic state as its members joined by %r (`{0,1}`), and that is what the NEXUS writer puts into the matrix; NexusReader._read_character_states joins every token between the brackets and looks the result up symbol by symbol, so %r is an unknown state symbol: a standard matrix with an uncoded multistate cell cannot be read back from the NEXUS the library wrote" % (sep, sep))
+        rep.floor("R09.16", "separators in member_states_str", 1, len(seps))
